@@ -10,7 +10,11 @@ PROP = dict(
           "EVERY length 1..300 and 65495..65576 in all 6 direction/type combinations, rapidcheck lengths biased to +-40 of 125/126/65535/65536 and sampled "
           "up to 70000, 200000 and 1 MiB once per run (1, 2, 4 MiB thorough); ONE client WebSocket object is reused inside a case: connect, exchange, close(), connect() again to the same or the other server "
           "(32 dedicated cases of 2-5 rounds in quick / 400 thorough whose reused object receives 124..128, 65534..65537, 300, 70000 bytes, plus `conn` ops "
-          "interleaved in ~1/9 of the generated positions); both ends compare the sequence of non-empty receive() results with the "
+          "interleaved in ~1/9 of the generated positions); the two ends wait for their messages in generated STYLES: blocking wait (the documentation's loop), polling `while(!closed()){if(!hasInput())continue;...}`, "
+          "polling on connected(), wait(0.3 ms) / waitData(0.3 ms) loops whose timeouts expire between messages -- with the sender paced on the echo (every frame lands on an "
+          "empty queue: bursts of 250 echoed messages), streaming (120 each way) and pausing 0.7-2 ms; 9 style pairs x every run + styles on ~45% of the generated sessions; "
+          "FULL DUPLEX steps: a sending and a receiving thread on the same WebSocket object at both ends, 1500-3000 messages each way at the same time (3 cases per worker "
+          "and run in quick); both ends compare the sequence of non-empty receive() results with the "
           "script (payloads are a pure function of (type, length, seed) written in the case) and an end marker proves nothing extra arrived. "
           "(in) WebSocket(Socket(fd), role) over one end of a socketpair, fed frames built by an independent RFC 6455 codec (harness/common/ref_ws.h): "
           "both roles, masked and unmasked, mask keys random / zero / with 1-3 zero bytes / single-bit, 1-4 fragments at generated split points "
@@ -27,7 +31,8 @@ PROP = dict(
           "`Upgrade, keep-alive`, `Keep-Alive, Upgrade`, `TE, keep-alive, Upgrade`, `keep-alive, Upgrade, TE` (asserted) or an RFC-valid spelling the unchanged library "
           "refuses too (`keep-alive,Upgrade`, lower/upper-case token, `Upgrade: WebSocket`: sent, outcome only counted); 0-7 extra headers (Origin, protocol, "
           "extensions, User-Agent, ...); header order permuted; the 72 (path x Connection x Upgrade) combinations enumerated + generated ones; through WebSocketServer and through "
-          "HttpServer::link: status 101 and Sec-WebSocket-Accept == Base64(SHA-1(key + GUID)) by the independent references of ref_codec.h, then one "
+          "HttpServer::link; an eighth of the cases (+ 8 enumerated: 1, 2, 6, 25 requests x both paths) as HALF CLOSE: the peer sends all its requests, shutdown(SHUT_WR), then reads: every "
+          "echo must arrive (the echo server is busy for 15 ms first, so the FIN is queued behind the requests); status 101 and Sec-WebSocket-Accept == Base64(SHA-1(key + GUID)) by the independent references of ref_codec.h, then one "
           "masked message echoed by the server and decoded by the reference. "
           "(hostile) grid role x 16 opcodes x FIN x RSV{0,7} x mask x 26 (form, declared length) pairs [0, 5, 125, 126, 65535, 65536, 2^31-1, 2^31, 2^31+5, "
           "2^32-1, 2^32-5, 2^32, 2^32+5, 2^32+2^31, 2^33-5, 2^63, 2^63+5, 2^64-1, 2^63-1, ...] x 3 payload sizes, followed by a valid frame, each stream "
@@ -47,6 +52,8 @@ PROP = dict(
                  "of that unchanged state instead of after the 60 s bound (gap between a receive()'s last read and its return: microseconds)",
                  "the interval timer is armed only inside those cases; all threads but the sending one block SIGALRM (the library's select() loops treat EINTR as an error); "
                  "the send timeout of the sending socket is lifted meanwhile (a socket with SO_SNDTIMEO fails with EINTR instead of restarting)",
+                 "one sending plus one receiving thread per WebSocket object is a supported use (WebSocketServer::clients() exists for broadcasting from another thread); "
+                 "only delivery is asserted there, data races on the closed flag are not (ASan build, no TSan)",
                  "declared lengths between 1 MiB and 2^31-1 that are not actually sent are not generated (allocation pressure is outside the property); "
                  "TCP_NODELAY/TCP_QUICKACK are set on the loopback connections for speed only",
                  "reads of uninitialised memory are visible only through their consequences (garbage lengths, ASan's 0xbe fill pattern echoed in a pong); MSan is unavailable"],
